@@ -325,6 +325,7 @@ int main(int argc, char** argv)
         Driver d;
         for (uint64_t si = lo; si < hi; si++) {
             if (vx::deadline_reached()) { cut_short = true; continue; }
+            if (getenv("C52_ONLY_BASE")) continue; // debugging aid: list the single-delivery observations only
             const Stream& st = g_streams[si];
             const size_t L = st.bytes.size();
             std::vector<size_t> pos;
